@@ -1443,17 +1443,40 @@ type Cond struct {
 	CondRoot ssa.Value
 }
 
-func decodeIf(ifi *ssa.If) Cond {
-	c := Cond{If: ifi, CondRoot: ifi.Cond}
-	v := ifi.Cond
-	for {
+// peelBool strips negations and comparisons with a boolean constant (`!x`, `x == false`, `x != true`, as a
+// `switch ok { case false: }` is compiled) and reports whether the remaining value is negated.
+func peelBool(v ssa.Value) (ssa.Value, bool) {
+	neg := false
+	for i := 0; i < 8; i++ {
 		if u, ok := v.(*ssa.UnOp); ok && u.Op == token.NOT {
-			c.Negated = !c.Negated
+			neg = !neg
 			v = u.X
 			continue
 		}
+		if b, ok := v.(*ssa.BinOp); ok && (b.Op == token.EQL || b.Op == token.NEQ) {
+			x, y := b.X, b.Y
+			if _, xc := constBool(x); xc {
+				x, y = y, x
+			}
+			if k, yc := constBool(y); yc {
+				if _, both := constBool(x); !both {
+					if (b.Op == token.EQL) != k {
+						neg = !neg
+					}
+					v = x
+					continue
+				}
+			}
+		}
 		break
 	}
+	return v, neg
+}
+
+func decodeIf(ifi *ssa.If) Cond {
+	c := Cond{If: ifi, CondRoot: ifi.Cond}
+	v, neg := peelBool(ifi.Cond)
+	c.Negated = neg
 	if b, ok := v.(*ssa.BinOp); ok {
 		c.Op, c.X, c.Y = b.Op, b.X, b.Y
 		// canonical orientation: a constant operand stands on the right (`nil != err`, `' ' == c[0]`, `0 < n`)
@@ -1509,16 +1532,7 @@ func ifsInOnly(fn *ssa.Function) []*ssa.If {
 // boolEdge: if `ifi` tests boolean value v (possibly negated), return the
 // successor index taken when v is true.
 func boolEdge(ifi *ssa.If, isV func(ssa.Value) bool) (succWhenTrue int, ok bool) {
-	v := ifi.Cond
-	neg := false
-	for {
-		if u, isU := v.(*ssa.UnOp); isU && u.Op == token.NOT {
-			neg = !neg
-			v = u.X
-			continue
-		}
-		break
-	}
+	v, neg := peelBool(ifi.Cond)
 	if !isV(v) && !isV(throughLocalCell(v)) {
 		return 0, false
 	}
@@ -1572,6 +1586,24 @@ func throughLocalCell(v ssa.Value) ssa.Value {
 		}
 	}
 	rs, entry := reachingStores(u)
+	if entry && len(rs) == 0 {
+		// never written on the way here: the variable still holds its zero value
+		t := u.Type()
+		switch tt := t.Underlying().(type) {
+		case *types.Basic:
+			switch {
+			case tt.Info()&types.IsBoolean != 0:
+				return ssa.NewConst(constant.MakeBool(false), t)
+			case tt.Info()&types.IsInteger != 0:
+				return ssa.NewConst(constant.MakeInt64(0), t)
+			case tt.Info()&types.IsString != 0:
+				return ssa.NewConst(constant.MakeString(""), t)
+			}
+		case *types.Pointer, *types.Interface, *types.Slice, *types.Map, *types.Chan, *types.Signature:
+			return ssa.NewConst(nil, t)
+		}
+		return v
+	}
 	if entry || len(rs) != 1 {
 		return v
 	}
